@@ -104,25 +104,34 @@ def default_params(name, rng, d):
     raise KeyError(name)
 
 
-def fit_args(name, X, y, rng):
-    """(args tuple for fit, description) with formed data"""
+def fit_args(name, X, y, rng, indices=False):
+    """args tuple for fit with formed data; with indices=True returns (index_args, formed_args) where the
+    data argument of index_args holds indices into X"""
+    n = len(X)
+    ar = np.arange(n)
     if name in ('Covariance',):
-        return (X,)
-    if name in ('LFDA', 'LMNN', 'NCA', 'ITML_Supervised', 'MMC_Supervised', 'SDML_Supervised',
-                'LSML_Supervised', 'SCML_Supervised', 'RCA_Supervised'):
-        return (X, y)
-    if name == 'MLKR':
-        return (X, y.astype(float) + 0.25 * rng.randn(len(y)))
-    if name == 'RCA':
-        return (X, chunks_from(X, y, rng))
-    if name in PAIRS:
+        ia, fa = (ar,), (X,)
+    elif name in ('LFDA', 'LMNN', 'NCA', 'ITML_Supervised', 'MMC_Supervised', 'SDML_Supervised',
+                  'LSML_Supervised', 'SCML_Supervised', 'RCA_Supervised'):
+        ia, fa = (ar, y), (X, y)
+    elif name == 'MLKR':
+        t = y.astype(float) + 0.25 * rng.randn(len(y))
+        ia, fa = (ar, t), (X, t)
+    elif name == 'RCA':
+        ch = chunks_from(X, y, rng)
+        ia, fa = (ar, ch), (X, ch)
+    elif name in PAIRS:
         idx, yy = pairs_from(X, y, rng)
-        return (X[idx], yy)
-    if name == 'LSML':
-        return (X[quads_from(X, y, rng)],)
-    if name == 'SCML':
-        return (X[triplets_from(X, y, rng)],)
-    raise KeyError(name)
+        ia, fa = (idx, yy), (X[idx], yy)
+    elif name == 'LSML':
+        q = quads_from(X, y, rng)
+        ia, fa = (q,), (X[q],)
+    elif name == 'SCML':
+        t = triplets_from(X, y, rng)
+        ia, fa = (t,), (X[t],)
+    else:
+        raise KeyError(name)
+    return (ia, fa) if indices else fa
 
 
 def sdml_safe_balance(name, X, args, p):
@@ -139,8 +148,30 @@ def sdml_safe_balance(name, X, args, p):
     return 0.25 / max(nrm, 1e-12)
 
 
-def fitted(name, rng, d=None, params=None, dyadic=False, data=None):
-    """returns (estimator, X, y, fit_args)"""
+class CountingCallable:
+    """callable preprocessor that counts its calls"""
+    def __init__(self, pool):
+        self.pool = pool
+        self.calls = 0
+
+    def __call__(self, idx):
+        self.calls += 1
+        return self.pool[idx]
+
+
+def make_preprocessor(kind, pool):
+    if kind == 'array':
+        return pool
+    if kind == 'list':
+        return pool.tolist()
+    if kind == 'callable':
+        return CountingCallable(pool)
+    raise KeyError(kind)
+
+
+def fitted(name, rng, d=None, params=None, dyadic=False, data=None, preprocessor=None, extra_pool=None):
+    """returns (estimator, X, y, fit_args).  With preprocessor in {'array','list','callable'} the estimator is
+    constructed with that preprocessor over pool = vstack(X, extra_pool) and fitted on *indices*."""
     quiet()
     if data is None:
         n_classes = int(rng.randint(2, 5))
@@ -155,9 +186,14 @@ def fitted(name, rng, d=None, params=None, dyadic=False, data=None):
     p = default_params(name, rng, d)
     if params:
         p.update(params)
-    args = fit_args(name, X, y, rng)
+    ia, fa = fit_args(name, X, y, rng, indices=True)
     if name.startswith('SDML') and not (params and 'balance_param' in params):
-        p['balance_param'] = sdml_safe_balance(name, X, args, p)
+        p['balance_param'] = sdml_safe_balance(name, X, fa, p)
+    args = fa
+    if preprocessor is not None:
+        pool = X if extra_pool is None else np.vstack([X, extra_pool])
+        p['preprocessor'] = make_preprocessor(preprocessor, pool)
+        args = ia
     est = CLASSES[name](**p)
     with warnings.catch_warnings():
         warnings.simplefilter('ignore')
